@@ -5,7 +5,7 @@ CONSTANTS
   InitRestated = TRUE
   OriginFromSuper = FALSE
   AllowModifyBusy = FALSE
-  SigCheck = FALSE
+  SigCheck = TRUE
   Parent <- Topo4
   Mode = "shape"
   QSels = {{}}
